@@ -290,6 +290,9 @@ pub struct Printer<'a> {
     pub st: Style,
     pub rng: &'a mut Rng,
     pub out: String,
+    /// nothing follows the current expression on its logical line (a closing delimiter may then
+    /// sit at the block's own column, as the formatter itself prints it)
+    tail: bool,
 }
 
 fn is_stmt(e: &E) -> bool {
@@ -305,7 +308,7 @@ fn is_atomic(e: &E) -> bool {
 
 impl<'a> Printer<'a> {
     pub fn new(st: Style, rng: &'a mut Rng) -> Self {
-        Printer { st, rng, out: String::new() }
+        Printer { st, rng, out: String::new(), tail: true }
     }
     fn w(&mut self, s: &str) {
         self.out.push_str(s);
@@ -513,33 +516,46 @@ impl<'a> Printer<'a> {
         }
     }
 
-    /// prec: 0 = block position (anything), 1 = expression position (declarations and `match` get
-    /// parentheses), 2 = infix operand (application or atom), 3 = argument (atom)
+    /// prec: 0 = block position (anything), 1 = item position (declarations and `match` get
+    /// parentheses), 5 = condition/scrutinee (every open construct gets parentheses),
+    /// 2 = infix operand (application or atom), 3 = argument (atom)
     pub fn expr(&mut self, e: &E, ind: usize, prec: u32) {
         let need = match prec {
             0 => false,
             1 => is_stmt(e) || matches!(e, E::Match(..)),
+            5 => is_open(e),
             2 => is_open(e) || matches!(e, E::Infix(..)),
             _ => !is_atomic(e),
         };
         let redundant = !need && !is_stmt(e) && self.st.parens > 0 && self.rng.chance(self.st.parens, 8);
+        let saved_tail = self.tail;
+        self.tail = saved_tail && prec == 0 && !(need || redundant);
         if need || redundant {
             self.w("(");
-            // inside parentheses a statement is printed with explicit `in` on one logical line
-            let saved = self.st.mode;
-            if is_stmt(e) || matches!(e, E::Match(..)) {
-                self.st.mode = Mode::Flat;
+            if (is_stmt(e) || matches!(e, E::Match(..))) && self.layout() && self.rng.chance(3, 4) {
+                // a block inside parentheses, the way the formatter itself prints it
+                let col = ind + 2 * self.st.ind;
+                self.nl(col);
+                self.expr_(e, col);
+            } else {
+                // a statement on one logical line with explicit `in`
+                let saved = self.st.mode;
+                if is_stmt(e) || matches!(e, E::Match(..)) {
+                    self.st.mode = Mode::Flat;
+                }
+                self.expr_(e, ind);
+                self.st.mode = saved;
             }
-            self.expr_(e, ind);
-            self.st.mode = saved;
             self.w(")");
         } else {
             self.expr_(e, ind);
         }
+        self.tail = saved_tail;
     }
 
     fn sep_items(&mut self, n: usize, ind: usize, open: &str, close: &str, mut item: impl FnMut(&mut Self, usize, usize)) {
         let tall = self.st.tall && self.layout() && n > 0;
+        let close_own_line = tall && self.tail;
         self.w(open);
         for i in 0..n {
             if tall {
@@ -550,11 +566,11 @@ impl<'a> Printer<'a> {
             item(self, i, ind + self.st.ind);
             if i + 1 < n {
                 self.w(",");
-            } else if tall && self.rng.chance(1, 2) {
+            } else if close_own_line && self.rng.chance(1, 2) {
                 self.w(",");
             }
         }
-        if tall {
+        if close_own_line {
             self.nl(ind);
         } else if open.ends_with('{') && n > 0 {
             self.w(" ");
@@ -594,9 +610,10 @@ impl<'a> Printer<'a> {
                 self.block(body, ind);
             }
             E::If(c, t, f) => {
+                let at_bol = self.out.rsplit('\n').next().map_or(true, |l| l.trim().is_empty());
                 self.w("if ");
-                self.expr(c, ind, 1);
-                if self.layout() && (self.st.narrow || self.rng.chance(1, 2)) {
+                self.expr(c, ind, 5);
+                if self.layout() && at_bol && self.tail && (self.st.narrow || self.rng.chance(1, 2)) {
                     self.w(" then");
                     self.block(t, ind);
                     self.nl(ind);
@@ -604,16 +621,17 @@ impl<'a> Printer<'a> {
                     self.block(f, ind);
                 } else {
                     self.w(" then ");
-                    self.expr(t, ind, 1);
+                    self.expr(t, ind, 5);
                     self.w(" else ");
-                    self.expr(f, ind, 1);
+                    self.expr(f, ind, if matches!(**f, E::If(..)) { 1 } else { 5 });
                 }
             }
             E::Match(s, alts) => {
                 self.w("match ");
-                self.expr(s, ind, 1);
+                self.expr(s, ind, 5);
                 self.w(" with");
-                for (p, b) in alts {
+                let flat_alts = if self.layout() { alts.len() } else { 1 };
+                for (p, b) in alts.iter().take(flat_alts) {
                     if self.layout() {
                         self.nl(ind);
                     } else {
@@ -688,7 +706,8 @@ impl<'a> Printer<'a> {
             }
             E::Rec(bs, body) => {
                 self.w("rec");
-                for b in bs {
+                let n = if self.layout() { bs.len() } else { 1 };
+                for b in bs.iter().take(n) {
                     if self.layout() {
                         self.nl(ind);
                     } else {
@@ -724,7 +743,7 @@ impl<'a> Printer<'a> {
             }
             E::Seq(bound, body) => {
                 self.w("seq ");
-                self.expr(bound, ind + self.st.ind, 1);
+                self.expr(bound, ind + self.st.ind, 5);
                 self.body(body, ind);
             }
         }
